@@ -28,7 +28,18 @@ def _proj():
     return _P["d"]
 
 
-def _lint(files):
+# triggers sitting exactly on a threshold: an inserted blank/comment line must not tip them over
+_SRP_PY = "class Ledger:\n" + "".join(f"    def op{i}(self):\n        return {i}\n" for i in range(3))
+_SRP_TS = "class Ledger {\n" + "".join(f"  op{i}() {{\n    return {i};\n  }}\n" for i in range(3)) + "}\n"
+_SRP_RS = "struct Ledger {\n    x: i32,\n}\nimpl Ledger {\n" + "".join(f"    pub fn op{i}(&self) -> i32 {{\n        {i}\n    }}\n" for i in range(3)) + "}\n"
+AT_LIMIT = {
+    "srp-at-loc-limit.py": ("python", _SRP_PY, {"srp": {"max_loc": 7, "max_methods": 3}}),
+    "srp-at-loc-limit.ts": ("typescript", _SRP_TS, {"srp": {"max_loc": 11, "max_methods": 3}}),
+    "srp-at-loc-limit.rs": ("rust", _SRP_RS, {"srp": {"max_loc": 14, "max_methods": 3}}),
+}
+
+
+def _lint(files, config=None):
     """files: dict name -> bytes/str. Returns violations."""
     import src.linter_config.ignore as ign
     from src.orchestrator.core import Orchestrator
@@ -43,7 +54,7 @@ def _lint(files):
         paths.append(p)
     try:
         ign.clear_ignore_parser_cache()
-        return Orchestrator(project_root=d).lint_files(paths)
+        return Orchestrator(project_root=d, config=config).lint_files(paths)
     finally:
         for p in paths:
             p.unlink()
@@ -69,9 +80,13 @@ def _keys(vs, name, shift=None, with_column=True):
 
 
 def h_edits(ctx):
-    names = tuple(n for n in triggers.T if n not in SKIP) + ("dup", "strg")
+    names = tuple(n for n in triggers.T if n not in SKIP) + ("dup", "strg") + tuple(AT_LIMIT)
     tname = ctx.pick("trigger", names)
-    if tname == "dup":
+    config = None
+    if tname in AT_LIMIT:
+        lang, text, config = AT_LIMIT[tname]
+        files, main = {tname: text}, tname
+    elif tname == "dup":
         files, main, lang = dict(triggers.DUP_FILES), "dup1.py", "python"
     elif tname == "strg":
         files, main, lang = dict(triggers.STRINGLY_FILES), "strg1.py", "python"
@@ -84,7 +99,7 @@ def h_edits(ctx):
     cm = "#" if lang == "python" else "//"
     edit = ctx.pick("edit", ("insert-blank", "insert-comment", "trailing-whitespace", "reindent-x2", "crlf", "bom", "append-code",
                              "two-edits"))
-    base = _lint(files)
+    base = _lint(files, config)
     shift, with_col = None, True
     new = None
     if edit in ("insert-blank", "insert-comment", "two-edits"):
@@ -119,7 +134,7 @@ def h_edits(ctx):
         new = "\n".join(lines + tail) + "\n"
     edited = dict(files)
     edited[main] = new
-    after = _lint(edited)
+    after = _lint(edited, config)
     kb = _keys(base, main, None, with_col)
     ka = _keys(after, main, shift, with_col)
     ctx.note("trigger", tname)
